@@ -20,6 +20,33 @@ func init() {
 		ls, bs := sigbits.ShardByPrefix(keys, a[1].I32())
 		return L(I32s(ls), I32s(bs), I32s(c17Route(keys, ls, bs)))
 	}
+	// a LARGE key set described compactly (prefix + w-byte big-endian counter c0..c0+n-1), one call
+	Exec["sigbits.ShardByPrefix/counter"] = func(a []V) string {
+		keys := c16CounterKeys(a[0].Str(), a[1].Int(), a[2].I64(), a[3].Int())
+		ls, bs := sigbits.ShardByPrefix(keys, a[4].I32())
+		return L(I32s(ls), I32s(bs))
+	}
+	// ONE []string buffer: every step refills it IN PLACE with another ascending list of the same
+	// length and then calls ShardByPrefix (kind 0) or only sigbits.New (kind 1) on it
+	Exec["sigbits.ShardByPrefix/reuse"] = func(a []V) string {
+		var buf []string
+		var rs []string
+		for _, st := range a[0].L {
+			ks := st.L[0].Strs()
+			if buf == nil {
+				buf = make([]string, len(ks))
+			}
+			copy(buf, ks)
+			if st.L[2].Int() == 0 {
+				ls, bs := sigbits.ShardByPrefix(buf, st.L[1].I32())
+				rs = append(rs, L(I32s(ls), I32s(bs)))
+			} else {
+				_ = sigbits.New(buf)
+				rs = append(rs, L())
+			}
+		}
+		return L(rs...)
+	}
 	Register("C17", genC17)
 }
 
@@ -93,6 +120,13 @@ func genC17(g *Gen) {
 		}
 	}
 
+	// maxSize far beyond the key count (a size computed from maxSize in int32 wraps here only)
+	bigSizes := func(keys []string, bucket string) {
+		for _, ms := range []int{1 << 30, 1<<31 - 2, 1<<31 - 1} {
+			do(keys, ms, bucket)
+		}
+	}
+
 	// (1) every non-empty subset of a 10-string universe x maxSize in 1..len+1
 	{
 		uni := c16SortDedup([]string{"", "a", "a\x00", "a\x00\x00", "ab", "abc", "abd", "b", "b\x80", "\xff"})
@@ -104,6 +138,9 @@ func genC17(g *Gen) {
 				}
 			}
 			allSizes(ks, "exh-subsets")
+			if len(ks) <= 3 {
+				bigSizes(ks, "exh-subsets-bigms")
+			}
 		}
 		g.Exhaust = append(g.Exhaust, "ShardByPrefix: every non-empty subset of {'',a,a00,a0000,ab,abc,abd,b,b80,ff} x maxSize in 1..len+1")
 	}
@@ -218,6 +255,61 @@ func genC17(g *Gen) {
 					}
 				}
 			}
+		}
+	}
+	// (2e) maxSize = 2^30, MaxInt32-1, MaxInt32 on hand-shaped sets
+	{
+		for _, ks := range [][]string{{"a"}, {"abc", "abd"}, {"", "a", "b"}, {"a", "ab", "abc", "b"},
+			{"\x00", "\x80", "\xff"}, {"p", "pa", "pb", "pc", "q"}} {
+			bigSizes(ks, "shape-bigms")
+		}
+		var ks []string
+		for i := 0; i < 40; i++ {
+			ks = append(ks, string([]byte{'k', byte(i / 6), byte(i * 5)}))
+		}
+		bigSizes(c16SortDedup(ks), "shape-bigms")
+	}
+	// (2f) ONE key buffer refilled in place between calls (a result remembered by slice identity shows here only)
+	{
+		nh := g.N(150, 3000)
+		for k := 0; k < nh; k++ {
+			nsteps := g.R.Range(2, 5)
+			var sets [][]string
+			m := 1 << 30
+			for i := 0; i < nsteps; i++ {
+				ks, _ := c16KeySet(g.R, g.R.Range(2, 12))
+				if len(ks) == 0 {
+					ks = []string{"a"}
+				}
+				sets = append(sets, ks)
+				if len(ks) < m {
+					m = len(ks)
+				}
+			}
+			var steps []string
+			for i, ks := range sets {
+				ms := g.R.Range(1, m+1)
+				kind := 0
+				if i < nsteps-1 && g.R.Intn(4) == 0 {
+					kind = 1
+				}
+				steps = append(steps, L(Strs(ks[:m]), Int(ms), Int(kind)))
+			}
+			g.Stat("reuse-history")
+			g.Do("sigbits.ShardByPrefix/reuse", L(L(steps...)), fmt.Sprintf("reuse/n%d/steps%d", c16Bucket(m, 1, 2, 4, 8), nsteps))
+		}
+	}
+	// (2g) LARGE key sets (>= 262144 keys, described compactly): prefix + 3-byte counter starting at 12345, so
+	// that positions 65536, 131072, ... fall inside runs of keys sharing all but the last byte
+	{
+		type cc struct{ n, ms int }
+		cs := []cc{{262144 + 5, 70000}}
+		if g.Thorough {
+			cs = append(cs, cc{262144 + 5, 1000}, cc{300000, 70000}, cc{300000, 1000})
+		}
+		for _, c := range cs {
+			g.Stat("counter-keys-262144+")
+			g.Do("sigbits.ShardByPrefix/counter", L(Str("k"), Int(3), I(12345), Int(c.n), Int(c.ms)), fmt.Sprintf("counter/n%d/ms%d", c.n, c.ms))
 		}
 	}
 	// (3) structured random key sets
